@@ -49,11 +49,11 @@ def run(tier):
     trace, abnormal = runner.run_programs(programs, seed=C.seed(), tag="c14")
     nev = sum(1 for _ in open(trace))
     ck.log("executed %d writer programs on the real library: %d events, %d abnormal terminations" % (len(programs), nev, len(abnormal)))
-    v = C.validate_trace("JlsWriteOnceTrace", "JlsWriteOnceTrace.cfg", trace, timeout=1500)
+    v = C.validate_trace_parallel("JlsWriteOnceTrace", "JlsWriteOnceTrace.cfg", trace, parts=12, timeout=2400, heap="4g")
     nwrites = 0
     for p in v.tlc.prints:
         if "TRACE_INFO" in p:
-            nwrites = C.parse_tla_value(p)[1]
+            nwrites += C.parse_tla_value(p)[1]
     ck.log("trace validation: %d/%d events, %d backend writes judged, %d rejection(s)" % (v.consumed, v.total, nwrites, len(v.rejections)))
     byx = {p["x"]: p for p in programs}
     lines = None
